@@ -796,12 +796,16 @@ func verifStageMatrix2(r *gen.Rand) []vsOp {
 		if r.Chance(1, 3) {
 			ops = append(ops, vsOp{kind: "SQ", name: F.name, num: -3600})
 		}
-		q(F)
+		if r.Chance(2, 3) {
+			q(F) // (otherwise the whole file simply arrives again, unannounced by any query)
+		}
 		whole(F)
 		ops = append(ops, vsOp{kind: "ST"})
 		if r.Chance(1, 2) {
 			ops = append(ops, vsOp{kind: "CC"})
-			q(E)
+			if r.Chance(2, 3) {
+				q(E)
+			}
 			whole(E)
 			ops = append(ops, vsOp{kind: "ST"})
 		}
